@@ -178,7 +178,7 @@ func setup(tab0, ptab Tab) *world {
 		w.parent.Define(k, int64(ptab.V[i]))
 	}
 	w.child = w.parent.NewEnv()
-	w.child.SetExternalLookup(extLookup{}) // knows the value name "ext"; consulted after the scope's own table
+	w.child.SetExternalLookup(extLookup{child: w.child}) // knows the value name "ext"; consulted after the scope's own table
 	for i, k := range tab0.K {
 		if isTypeName(k) {
 			w.child.DefineType(k, typeFor(tab0.V[i]))
@@ -205,7 +205,7 @@ func codeOf(t reflect.Type) int {
 	return -98
 }
 
-type extLookup struct{}
+type extLookup struct{ child *env.Env }
 
 func (extLookup) Get(name string) (reflect.Value, error) {
 	if name == "ext" {
@@ -213,7 +213,15 @@ func (extLookup) Get(name string) (reflect.Value, error) {
 	}
 	return reflect.Value{}, fmt.Errorf("unknown")
 }
-func (extLookup) Type(name string) (reflect.Type, error) { return nil, fmt.Errorf("unknown") }
+
+// Type resolves the alias "tz" by asking the scope itself for "tx": a lookup may call back into the scope it serves
+// (the scope asks its lookup after it has let go of its own table)
+func (x extLookup) Type(name string) (reflect.Type, error) {
+	if name == "tz" && x.child != nil {
+		return x.child.Type("tx")
+	}
+	return nil, fmt.Errorf("unknown")
+}
 
 func errRes(err error) Res {
 	if err != nil {
@@ -262,6 +270,11 @@ func (w *world) call(g, i int, o Op, mu *sync.Mutex) Res {
 		}
 		return Res{K: "copy", S: []string{}}
 	case "Symbols":
+		if isTypeName(o.N) {
+			s := e.GetTypeSymbols()
+			sort.Strings(s)
+			return Res{K: "syms", S: s}
+		}
 		s := e.GetValueSymbols()
 		sort.Strings(s)
 		return Res{K: "syms", S: s}
